@@ -165,6 +165,71 @@ func UserKeytab(k *refkdc.KDC, user string) (*keytab.Keytab, []byte, error) {
 	return kt, b, nil
 }
 
+// UserKeytabMerged is UserKeytab for a keytab file that is shared, as merged keytabs are: entries of
+// other principals of the realm (same number of name components, same encryption types and key
+// versions, other keys) stand before and after the user's, with equal or newer time stamps, and
+// older key versions of the user itself (older time stamps) are still in the file.  Which of these
+// are present, and where, is decided by the bits of variant.
+func UserKeytabMerged(k *refkdc.KDC, user string, variant uint64) (*keytab.Keytab, []byte, error) {
+	p := k.DB[user]
+	if p == nil || p.Keys == nil {
+		return nil, nil, fmt.Errorf("no keyed principal %s", user)
+	}
+	var ets []int
+	for et := range p.Keys {
+		ets = append(ets, et)
+	}
+	sort.Ints(ets)
+	const ts = 1_500_000_000
+	other := func(name string, salt byte, stamp uint32) []rk.KeytabEntry {
+		var out []rk.KeytabEntry
+		for _, et := range ets {
+			key := p.Keys[et]
+			kv := make([]byte, len(key.Key.Value))
+			for i := range kv {
+				kv[i] = key.Key.Value[i] ^ salt ^ byte(i*7+1)
+			}
+			out = append(out, rk.KeytabEntry{Principal: rk.ParseName(name), Realm: k.Realm, Kvno: uint32(key.Kvno), Key: rk.EncryptionKey{Etype: key.Key.Etype, Value: kv}, Timestamp: stamp})
+		}
+		return out
+	}
+	var own, es []rk.KeytabEntry
+	for _, et := range ets {
+		key := p.Keys[et]
+		own = append(own, rk.KeytabEntry{Principal: rk.ParseName(user), Realm: k.Realm, Kvno: uint32(key.Kvno), Key: key.Key, Timestamp: ts})
+	}
+	oldOwn := other(user, 0x5a, ts-86400) // the user's previous keys: older stamp, previous version
+	for i := range oldOwn {
+		if oldOwn[i].Kvno > 1 {
+			oldOwn[i].Kvno--
+		} else {
+			oldOwn[i].Kvno = 255
+		}
+	}
+	if variant&1 != 0 {
+		es = append(es, other("bob", 0x11, ts)...) // same second (one ktutil run wrote them all)
+	}
+	if variant&2 != 0 {
+		es = append(es, other("zed", 0x22, ts+3600)...) // newer than the user's own
+	}
+	if variant&4 != 0 {
+		es = append(es, oldOwn...)
+	}
+	es = append(es, own...)
+	if variant&8 != 0 {
+		es = append(es, other("carol", 0x33, ts+7200)...)
+	}
+	if variant&16 != 0 && variant&4 == 0 {
+		es = append(es, oldOwn...)
+	}
+	b := rk.WriteKeytab(es)
+	kt := keytab.New()
+	if err := kt.Unmarshal(b); err != nil {
+		return nil, b, err
+	}
+	return kt, b, nil
+}
+
 // Wire attaches a KDC to the addresses in the simulated network.
 func Wire(n *world.Net, k *refkdc.KDC, addrs []string, pt func(req []byte) []refkdc.Perturb) {
 	k.TaskID = func() int { return simrt.Cur().ID }
